@@ -57,6 +57,10 @@ def plan(tier, seed):
                             {"mode": "lab", "costs": [(0, 2, 2, 1, 2), (0, 1, 2, 1, 1)]})
         for osh, ssh in spaces.shape_pairs(4, 3):
             out.append({"slice": "single-family:P4x3", "mode": "single", "osh": osh, "ssh": ssh, "costs": core[:4] + [core[7]] + cheap_hgt + uneven})
+        # unit costs ten orders of magnitude apart (candidates a few losses apart must not count as tied)
+        for osh, ssh in spaces.shape_pairs(3, 3):
+            out.append({"slice": "single-family:P3x3/huge", "mode": "single", "osh": osh, "ssh": ssh,
+                        "costs": [(0, 10 ** 10, INF, 1, 1), (0, 10 ** 10, 10 ** 10 + 3, 1, 1)]})
         # two cherries on 4 species leaves: the optimum may host the root strictly below the LCA species of both children
         # plain solvers only (thl <= lca) on deep species trees with a transfer twice as dear as a duplication
         for osh, ssh in spaces.shape_pairs(3, 6, min_obj=3, min_sp=6):
@@ -78,7 +82,7 @@ def plan(tier, seed):
     for osh, ssh in spaces.shape_pairs(5, 3, min_obj=5):
         out.append({"slice": "single-family:P5x3", "mode": "single", "osh": osh, "ssh": ssh, "costs": core[:3] + [core[7]] + cheap_hgt[:2]})
     # the quick slices that the larger ones above do not subsume
-    keep = ("labelled:O4x3x{a,b}/hgt2", "labelled:O4chainx1x3s", "plain:P3x6", "single-family:P5x3/thl=superdtl")
+    keep = ("single-family:P3x3/huge", "labelled:O4x3x{a,b}/hgt2", "labelled:O4chainx1x3s", "plain:P3x6", "single-family:P5x3/thl=superdtl")
     out = [sh for sh in plan("quick", seed) if sh["slice"] in keep] + out      # cheap ones first
     return out
 
